@@ -38,6 +38,9 @@ EXTRA_INPUTS = [
     ("transform", _p("many_decimal_formats.xsl"), _p("s1.xml")),
     ("transform", _p("many_sort_langs.xsl"), _p("s1.xml")),
     ("two", _p("many_decimal_formats.xsl"), _p("s1.xml")),
+    # top-level parameters held as XObjects and never cleared by the caller (seed C19_f: the holders outlive the factory)
+    ("params", _p("s1.xsl"), _p("s1.xml")),
+    ("params", _p("s3.xsl"), _p("s3.xml")),
 ]
 
 # inputs in the class of a known finding of the no-injection balance run: {stylesheet basename: finding id}
@@ -91,7 +94,7 @@ def count(exe, scenario, xsl, xml, throw=None, release=False, env=None, timeout=
     for ln in p.stdout.splitlines():
         if ln.startswith("N="):
             d = _kv(ln)
-            for k in ("N", "outstanding", "foreign", "double", "handler_allocs", "status", "nullfree", "bytes", "outlen"):
+            for k in ("N", "outstanding", "foreign", "double", "handler_allocs", "status", "nullfree", "bytes", "outlen", "written_after_release"):
                 if k in d:
                     res[k] = int(d[k])
             res["via"] = d.get("via")
@@ -395,6 +398,9 @@ def check(ctx, known, widen=False, exe=None):
         if bal != (0, 0, 0):
             new.append({"case": replay_line(scenario, xsl, xml, "count", 0),
                         "what": "not balanced without any refusal: outstanding=%s foreign=%s double=%s after ~XalanTransformer %s" % (bal + (c.get("badfree") or "",))})
+        if c.get("written_after_release"):
+            new.append({"case": replay_line(scenario, xsl, xml, "count", 0),
+                        "what": "%d block(s) were written to after they had been released to the manager (the quarantined blocks are filled with 0xDD at release and compared at exit)" % c["written_after_release"]})
         want_fail = scenario.startswith("fail_")
         if (c.get("status") != 0) != want_fail:
             new.append({"case": replay_line(scenario, xsl, xml, "count", 0), "what": "unexpected API status %s" % c.get("status")})
@@ -486,7 +492,7 @@ def replay(lines, exe=None):
         if mode == "count":
             c = count(exe, scenario, xsl, xml)
             print({k_: v for k_, v in c.items() if k_ != "raw"})
-            if (c.get("outstanding"), c.get("foreign"), c.get("double")) != (0, 0, 0):
+            if (c.get("outstanding"), c.get("foreign"), c.get("double")) != (0, 0, 0) or c.get("written_after_release"):
                 rc = 1
             continue
         for r in sweep(exe, scenario, xsl, xml, [int(k)], mode=mode):
